@@ -165,6 +165,9 @@ var targets = []target{
 			"bytes.Clone": {Lean: "%1", Type: "List UInt8"},
 		}},
 	{Group: "C03", Dir: "crypto/padding", Func: "UnpadPKCS7"},
+	{Group: "C03", Dir: "crypto/padding", Func: "PadPKCS7", Externs: map[string]extern{
+		"bytes.Repeat": {Lean: "(List.flatten (List.replicate (%2).toNat %1))", Type: "List UInt8"},
+	}},
 	{Group: "C07", Dir: "time", Func: "ParseISO8601Duration", Externs: map[string]extern{
 		// strconv.Atoi on the bytes of the substring: any (value, err) — a parameter of the translation
 		"strconv.Atoi": {Lean: "(atoi %1)", Type: "Int × Kit.GoSem.Err", Params: []string{"(atoi : List UInt8 → Int × Kit.GoSem.Err)"}},
@@ -194,6 +197,25 @@ var timeExterns = map[string]extern{
 }
 
 var timeTypes = map[string]string{"time.Time": "Int", "*time.Location": "Unit"}
+
+var kwExterns = map[string]extern{
+	// one block operation of the cipher, in place on its (single) 16-byte argument
+	"block.Encrypt": {Lean: "()", Type: "", Params: []string{"(B_Enc : List UInt8 → List UInt8)", "(B_Dec : List UInt8 → List UInt8)"}, Effects: []string{"%1 := B_Enc %2"}},
+	"block.Decrypt": {Lean: "()", Type: "", Effects: []string{"%1 := B_Dec %2"}},
+	"binary.BigEndian.PutUint64":  {Lean: "()", Type: "", Effects: []string{"%1 := Kit.GoSem.putU64BE %1 %2"}},
+	"subtle.ConstantTimeCompare": {Lean: "(if %1 == %2 then (1 : Int) else (0 : Int))", Type: "Int"},
+}
+
+var kwRewrites = map[string][2]string{"defaultIV": {"([166, 166, 166, 166, 166, 166, 166, 166] : List UInt8)", "List UInt8"}}
+
+func init() {
+	targets = append(targets,
+		target{Group: "C03KW", Dir: "crypto/aeskw", Func: "arrConcat"},
+		target{Group: "C03KW", Dir: "crypto/aeskw", Func: "arrXor"},
+		target{Group: "C03KW", Dir: "crypto/aeskw", Func: "Wrap", Abstract: []string{"block"}, Externs: kwExterns, Rewrites: kwRewrites},
+		target{Group: "C03KW", Dir: "crypto/aeskw", Func: "Unwrap", Abstract: []string{"block"}, Externs: kwExterns, Rewrites: kwRewrites},
+	)
+}
 
 func init() {
 	targets = append(targets,
@@ -272,6 +294,7 @@ type fnSig struct {
 	lean     string
 	needFuel bool
 	resultTy lty
+	variadic bool       // the last Go parameter is `...T`: the call site packs the trailing arguments
 	extra    []string   // names of the extern parameters (the caller passes its own of the same names)
 	params   []sigParam // one per Go parameter
 }
@@ -317,6 +340,9 @@ func (c *fnCtx) leanType(t types.Type, n ast.Node) lty {
 		if b, ok := u.Elem().Underlying().(*types.Basic); ok && b.Kind() == types.Uint8 {
 			return tBytes
 		}
+		if _, ok := u.Elem().Underlying().(*types.Slice); ok {
+			return lty("List (" + string(c.leanType(u.Elem(), n)) + ")")
+		}
 	case *types.Interface:
 		if t.String() == "error" {
 			return tErr
@@ -324,6 +350,15 @@ func (c *fnCtx) leanType(t types.Type, n ast.Node) lty {
 	}
 	c.bad(n, "type %s", t.String())
 	return ""
+}
+
+// elemOf gives the element type of a list type.
+func elemOf(t lty) lty {
+	e := strings.TrimPrefix(string(t), "List ")
+	if strings.HasPrefix(e, "(") && strings.HasSuffix(e, ")") {
+		e = e[1 : len(e)-1]
+	}
+	return lty(e)
 }
 
 func zero(t lty) string {
@@ -535,7 +570,7 @@ func (c *fnCtx) expr(e ast.Expr) exprOut {
 		if s.ty != tBytes {
 			p := append(append([]pre{}, s.pre...), i.pre...)
 			p = append(p, pre{guard: fmt.Sprintf("(decide (0 ≤ %s ∧ %s < Kit.GoSem.lenI %s))", i.s, i.s, s.s), msg: "index out of range: " + printed(c.fset, e)})
-			return exprOut{s: fmt.Sprintf("(Kit.GoSem.idxG %s %s)", s.s, i.s), ty: lty(strings.TrimPrefix(string(s.ty), "List ")), pre: p}
+			return exprOut{s: fmt.Sprintf("(Kit.GoSem.idxG %s %s)", s.s, i.s), ty: elemOf(s.ty), pre: p}
 		}
 		p := append(append([]pre{}, s.pre...), i.pre...)
 		p = append(p, pre{guard: fmt.Sprintf("(decide (0 ≤ %s ∧ %s < Kit.GoSem.lenI %s))", i.s, i.s, s.s), msg: "index out of range: " + printed(c.fset, e)})
@@ -564,8 +599,21 @@ func (c *fnCtx) expr(e ast.Expr) exprOut {
 		return exprOut{s: fmt.Sprintf("(Kit.GoSem.slice %s %s %s)", s.s, lo, hi), ty: s.ty, pre: p}
 	case *ast.CompositeLit:
 		// []byte{} only
-		if c.leanType(c.info.Types[e].Type, e) == tBytes && len(v.Elts) == 0 {
-			return exprOut{s: "([] : List UInt8)", ty: tBytes}
+		if c.leanType(c.info.Types[e].Type, e) == tBytes {
+			var els []string
+			var p []pre
+			for _, el := range v.Elts {
+				if _, kv := el.(*ast.KeyValueExpr); kv {
+					c.bad(e, "keyed slice literal")
+				}
+				x := c.expr(el)
+				if x.ty != tByte {
+					c.bad(el, "slice literal element of type %s", x.ty)
+				}
+				p = append(p, x.pre...)
+				els = append(els, x.s)
+			}
+			return exprOut{s: "([" + strings.Join(els, ", ") + "] : List UInt8)", ty: tBytes, pre: p}
 		}
 		c.bad(e, "composite literal")
 	}
@@ -642,6 +690,11 @@ func (c *fnCtx) binary(v *ast.BinaryExpr) exprOut {
 			p = append(p, pre{guard: fmt.Sprintf("(%s != 0)", y.s), msg: "integer divide by zero: " + printed(c.fset, v)})
 			return exprOut{s: fmt.Sprintf("(Kit.GoSem.modI64 %s %s)", x.s, y.s), ty: tInt, pre: p}
 		}
+	case tByte:
+		bops := map[token.Token]string{token.AND: "&&&", token.OR: "|||", token.XOR: "^^^", token.ADD: "+", token.SUB: "-"}
+		if op, ok := bops[v.Op]; ok {
+			return exprOut{s: fmt.Sprintf("(%s %s %s)", x.s, op, y.s), ty: tByte, pre: p}
+		}
 	case tU64, tU32:
 		ops := map[token.Token]string{token.ADD: "+", token.SUB: "-", token.MUL: "*", token.AND: "&&&", token.OR: "|||", token.XOR: "^^^"}
 		if op, ok := ops[v.Op]; ok {
@@ -684,8 +737,36 @@ func (c *fnCtx) call(v *ast.CallExpr) exprOut {
 	}
 	if id, ok := v.Fun.(*ast.Ident); ok {
 		switch id.Name {
+		case "append":
+			if _, isBuiltin := c.info.Uses[id].(*types.Builtin); isBuiltin && len(v.Args) >= 1 {
+				base := c.expr(v.Args[0])
+				p := append([]pre{}, base.pre...)
+				if v.Ellipsis.IsValid() && len(v.Args) == 2 {
+					y := c.expr(v.Args[1])
+					if y.ty != base.ty {
+						c.bad(v, "append of %s to %s", y.ty, base.ty)
+					}
+					return exprOut{s: fmt.Sprintf("(%s ++ %s)", base.s, y.s), ty: base.ty, pre: append(p, y.pre...)}
+				}
+				var els []string
+				for _, a := range v.Args[1:] {
+					x := c.expr(a)
+					if x.ty != elemOf(base.ty) {
+						c.bad(a, "append of element %s to %s", x.ty, base.ty)
+					}
+					p = append(p, x.pre...)
+					els = append(els, x.s)
+				}
+				return exprOut{s: fmt.Sprintf("(%s ++ [%s])", base.s, strings.Join(els, ", ")), ty: base.ty, pre: p}
+			}
 		case "make":
 			if _, isBuiltin := c.info.Uses[id].(*types.Builtin); isBuiltin && len(v.Args) == 2 {
+				if lt := c.leanType(c.info.Types[v.Args[0]].Type, v); lt != tBytes && strings.HasPrefix(string(lt), "List ") {
+					n := c.expr(v.Args[1])
+					p := append([]pre{}, n.pre...)
+					p = append(p, pre{guard: fmt.Sprintf("(decide (0 ≤ %s))", n.s), msg: "makeslice: len out of range: " + printed(c.fset, v)})
+					return exprOut{s: fmt.Sprintf("(List.replicate %s.toNat ([] : %s))", n.s, elemOf(lt)), ty: lt, pre: p}
+				}
 				if c.leanType(c.info.Types[v.Args[0]].Type, v) == tBytes {
 					n := c.expr(v.Args[1])
 					p := append([]pre{}, n.pre...)
@@ -726,6 +807,22 @@ func (c *fnCtx) call(v *ast.CallExpr) exprOut {
 				args = append(args, en)
 			}
 			for i, a := range v.Args {
+				if sig.variadic && i >= len(sig.params)-1 {
+					if v.Ellipsis.IsValid() {
+						x := c.expr(a)
+						p = append(p, x.pre...)
+						args = append(args, x.s)
+					} else {
+						var els []string
+						for _, b := range v.Args[i:] {
+							x := c.expr(b)
+							p = append(p, x.pre...)
+							els = append(els, x.s)
+						}
+						args = append(args, "["+strings.Join(els, ", ")+"]")
+					}
+					break
+				}
 				if i < len(sig.params) && sig.params[i].skip {
 					continue
 				}
@@ -866,7 +963,13 @@ func (c *fnCtx) assigned(n ast.Node, out map[string]lty) {
 			c.noteEffects(s.X, out)
 			if call, ok := s.X.(*ast.CallExpr); ok {
 				if id, ok := call.Fun.(*ast.Ident); ok && id.Name == "copy" && len(call.Args) == 2 {
-					c.noteAssigned(call.Args[0], false, out)
+					if se, isSlice := call.Args[0].(*ast.SliceExpr); isSlice {
+						c.noteAssigned(se.X, false, out)
+					} else if base, _, isIdx := c.indexTarget(call.Args[0]); isIdx {
+						c.noteAssigned(base, false, out)
+					} else {
+						c.noteAssigned(call.Args[0], false, out)
+					}
 				}
 			}
 		}
@@ -887,9 +990,17 @@ func (c *fnCtx) assigned(n ast.Node, out map[string]lty) {
 }
 
 func (c *fnCtx) noteEffects(e ast.Expr, out map[string]lty) {
-	if ex, _, ok := c.externOf(e); ok {
+	if ex, call, ok := c.externOf(e); ok {
 		for _, ef := range ex.Effects {
 			nm := strings.TrimSpace(strings.SplitN(ef, ":=", 2)[0])
+			if strings.HasPrefix(nm, "%") {
+				var k int
+				fmt.Sscanf(nm, "%%%d", &k)
+				if k >= 1 && k <= len(call.Args) {
+					c.noteAssigned(call.Args[k-1], false, out)
+				}
+				continue
+			}
 			for _, g := range c.env {
 				if g.name == nm {
 					out[nm] = g.ty
@@ -1065,7 +1176,7 @@ func (c *fnCtx) assignOne(name string, ty lty, rhs exprOut, n ast.Node, body fun
 func (c *fnCtx) effects(ex extern, val exprOut, body string) string {
 	for i := len(ex.Effects) - 1; i >= 0; i-- {
 		parts := strings.SplitN(ex.Effects[i], ":=", 2)
-		body = fmt.Sprintf("let %s := %s\n%s", strings.TrimSpace(parts[0]), subst(strings.TrimSpace(parts[1]), val.exRecv, val.exArgs), body)
+		body = fmt.Sprintf("let %s := %s\n%s", subst(strings.TrimSpace(parts[0]), val.exRecv, val.exArgs), subst(strings.TrimSpace(parts[1]), val.exRecv, val.exArgs), body)
 	}
 	return body
 }
@@ -1199,6 +1310,40 @@ func (c *fnCtx) stmt(s ast.Stmt, k conts) string {
 		if call, ok := v.X.(*ast.CallExpr); ok {
 			if id, ok := call.Fun.(*ast.Ident); ok && id.Name == "copy" && len(call.Args) == 2 {
 				if _, isBuiltin := c.info.Uses[id].(*types.Builtin); isBuiltin {
+					// copy(dst[lo:hi], src): write into a window of the variable
+					if se, isSlice := call.Args[0].(*ast.SliceExpr); isSlice && !se.Slice3 {
+						name, ty, _ := c.lhsVar(se.X)
+						src := c.expr(call.Args[1])
+						if ty != tBytes || src.ty != tBytes {
+							c.bad(s, "copy of %s into a window of %s", src.ty, ty)
+						}
+						ps := append([]pre{}, src.pre...)
+						lo, hi := "(0 : Int)", fmt.Sprintf("(Kit.GoSem.lenI %s)", name)
+						if se.Low != nil {
+							l := c.expr(se.Low)
+							ps = append(ps, l.pre...)
+							lo = l.s
+						}
+						if se.High != nil {
+							h := c.expr(se.High)
+							ps = append(ps, h.pre...)
+							hi = h.s
+						}
+						ps = append(ps, pre{guard: fmt.Sprintf("(decide (0 ≤ %s ∧ %s ≤ %s ∧ %s ≤ Kit.GoSem.lenI %s))", lo, lo, hi, hi, name), msg: "slice bounds out of range: " + printed(c.fset, se)})
+						return c.emitPre(ps, fmt.Sprintf("let %s : %s := Kit.GoSem.writeAt %s %s %s %s\n%s", name, ty, name, lo, hi, src.s, k.next()))
+					}
+					// copy(dst[i], src): fill one element of a list of byte slices
+					if base, idx, isIdx := c.indexTarget(call.Args[0]); isIdx {
+						name, ty, _ := c.lhsVar(base)
+						i := c.expr(idx)
+						src := c.expr(call.Args[1])
+						if elemOf(ty) != tBytes || src.ty != tBytes {
+							c.bad(s, "copy of %s into an element of %s", src.ty, ty)
+						}
+						ps := append(append([]pre{}, i.pre...), src.pre...)
+						ps = append(ps, pre{guard: fmt.Sprintf("(decide (0 ≤ %s ∧ %s < Kit.GoSem.lenI %s))", i.s, i.s, name), msg: "index out of range: " + printed(c.fset, call.Args[0])})
+						return c.emitPre(ps, fmt.Sprintf("let %s : %s := Kit.GoSem.setAt %s %s (Kit.GoSem.fill (Kit.GoSem.idxG %s %s) %s)\n%s", name, ty, name, i.s, name, i.s, src.s, k.next()))
+					}
 					// copy(dst, src) into a whole list-typed variable
 					name, ty, _ := c.lhsVar(call.Args[0])
 					src := c.expr(call.Args[1])
@@ -1315,6 +1460,8 @@ func (c *fnCtx) stmt(s ast.Stmt, k conts) string {
 		return c.switchStmt(v, k)
 	case *ast.ForStmt:
 		return c.forStmt(v, k)
+	case *ast.RangeStmt:
+		return c.rangeStmt(v, k)
 	}
 	c.bad(s, "statement %T", s)
 	return ""
@@ -1662,6 +1809,93 @@ func (c *fnCtx) switchStmt(v *ast.SwitchStmt, k conts) string {
 	})
 }
 
+// rangeStmt translates `for i, x := range e {…}` (e a list or an int; e is evaluated once) as a
+// counted loop over a hidden index.
+func (c *fnCtx) rangeStmt(v *ast.RangeStmt, k conts) string {
+	if v.Tok != token.DEFINE && (v.Key != nil || v.Value != nil) {
+		c.bad(v, "range with assignment to existing variables")
+	}
+	envLen := len(c.env)
+	x := c.expr(v.X)
+	c.tmp++
+	id := c.tmp
+	rngName := fmt.Sprintf("rng%d_", id)
+	lenName := fmt.Sprintf("len%d_", id)
+	idxName := fmt.Sprintf("idx%d_", id)
+	var head string
+	isList := strings.HasPrefix(string(x.ty), "List ")
+	if isList {
+		head = fmt.Sprintf("let %s : %s := %s\nlet %s : Int := Kit.GoSem.lenI %s\n", rngName, x.ty, x.s, lenName, rngName)
+		c.env = append(c.env, variable{rngName, x.ty})
+	} else if x.ty == tInt {
+		head = fmt.Sprintf("let %s : Int := %s\n", lenName, x.s)
+	} else {
+		c.bad(v, "range over %s", x.ty)
+	}
+	head += fmt.Sprintf("let %s : Int := (0 : Int)\n", idxName)
+	c.env = append(c.env, variable{lenName, tInt}, variable{idxName, tInt})
+	c.nloops++
+	c.needFuel = true
+	loopName := fmt.Sprintf("%s_loop%d", c.leanName, c.nloops)
+	all := append([]variable{}, c.env...)
+	m := map[string]lty{idxName: tInt}
+	c.assigned(v.Body, m)
+	carried := c.inScope(m)
+	carriedPat, carriedTy := tupleOf(carried)
+	var params, args []string
+	for _, p := range c.extraParams {
+		params = append(params, p)
+		if !strings.HasPrefix(p, "{") {
+			args = append(args, strings.TrimSpace(strings.SplitN(strings.Trim(p, "()"), ":", 2)[0]))
+		}
+	}
+	for _, vr := range all {
+		params = append(params, fmt.Sprintf("(%s : %s)", vr.name, vr.ty))
+		args = append(args, vr.name)
+	}
+	recurse := func() string { return fmt.Sprintf("%s fuel %s", loopName, strings.Join(args, " ")) }
+	exit := func() string { return fmt.Sprintf(".ok (.brk %s)", carriedPat) }
+	post := func() string {
+		return fmt.Sprintf("let %s : Int := %s + 1\n%s", idxName, idxName, recurse())
+	}
+	inner := conts{next: post, brk: exit, cont: post, ret: func(vals []string) string { return ".ok (.ret " + c.retTuple(c, vals) + ")" },
+		retRaw: func(t string) string { return ".ok (.ret " + t + ")" }, jump: map[string]func() string{}}
+	// per-iteration bindings of key and value
+	binds := ""
+	bodyEnv := len(c.env)
+	if kid, ok := v.Key.(*ast.Ident); ok && kid.Name != "_" {
+		vr := c.declare(c.info.Defs[kid], tInt)
+		binds += fmt.Sprintf("let %s : Int := %s\n", vr.name, idxName)
+	}
+	if vid, ok := v.Value.(*ast.Ident); ok && vid.Name != "_" {
+		if !isList {
+			c.bad(v, "range value over an integer")
+		}
+		et := elemOf(x.ty)
+		vr := c.declare(c.info.Defs[vid], et)
+		getter := "Kit.GoSem.idxG"
+		if x.ty == tBytes {
+			getter = "Kit.GoSem.idx"
+		}
+		binds += fmt.Sprintf("let %s : %s := %s %s %s\n", vr.name, et, getter, rngName, idxName)
+	}
+	bodyS := fmt.Sprintf("if (decide (%s < %s)) then\n%s\nelse\n%s", idxName, lenName, ind(binds+c.block(v.Body, inner)), ind(exit()))
+	c.env = c.env[:bodyEnv]
+	def := fmt.Sprintf("def %s (fuel : Nat) %s : Kit.GoSem.Res (Kit.GoSem.LoopOut (%s) (%s)) :=\n  match fuel with\n  | 0 => .nofuel\n  | fuel + 1 =>\n%s\n",
+		loopName, strings.Join(params, " "), c.resultTy, carriedTy, ind(ind(bodyS)))
+	c.loops = append(c.loops, def)
+	c.env = append([]variable{}, all[:envLen]...)
+	after := k.next()
+	reraise := ".ok ret__"
+	if k.retRaw != nil {
+		reraise = k.retRaw("ret__")
+	}
+	out := c.emitPre(x.pre, fmt.Sprintf("%smatch %s fuel %s with\n| .panic msg__ => .panic msg__\n| .nofuel => .nofuel\n| .ok (.ret ret__) => %s\n| .ok (.brk %s) =>\n%s",
+		head, loopName, strings.Join(args, " "), reraise, carriedPat, ind(after)))
+	c.env = c.env[:envLen]
+	return out
+}
+
 func (c *fnCtx) forStmt(v *ast.ForStmt, k conts) string {
 	envLen := len(c.env)
 	wrapInit := func(body func() string) string { return body() }
@@ -1806,6 +2040,8 @@ func usesField(fd *ast.FuncDecl, x, f string) bool {
 	})
 	return found
 }
+
+func isEllipsis(e ast.Expr) bool { _, ok := e.(*ast.Ellipsis); return ok }
 
 func structOf(t types.Type) *types.Struct {
 	if p, ok := t.Underlying().(*types.Pointer); ok {
@@ -2027,7 +2263,7 @@ func translate(t target, fset *token.FileSet, files []*ast.File, info *types.Inf
 	src := printed(fset, fd)
 	fmt.Fprintf(&b, "/-- `%s.%s` (%s). Go source:\n```go\n%s\n```\n-/\n", t.Dir, t.Func, filepath.Base(fset.Position(fd.Pos()).Filename), strings.ReplaceAll(src, "-/", "- /"))
 	fmt.Fprintf(&b, "def %s %s : Kit.GoSem.Res (%s) :=\n%s\n", c.leanName, strings.Join(ps, " "), c.resultTy, ind(body))
-	sig := &fnSig{lean: c.leanName, needFuel: c.needFuel, resultTy: c.resultTy, params: sigParams[nRecv:]}
+	sig := &fnSig{lean: c.leanName, needFuel: c.needFuel, resultTy: c.resultTy, params: sigParams[nRecv:], variadic: fd.Type.Params.NumFields() > 0 && isEllipsis(fd.Type.Params.List[len(fd.Type.Params.List)-1].Type)}
 	for _, p := range c.extraParams {
 		if !strings.HasPrefix(p, "{") {
 			sig.extra = append(sig.extra, strings.TrimSpace(strings.SplitN(strings.TrimPrefix(p, "("), ":", 2)[0]))
